@@ -582,6 +582,7 @@ func extractC10Sites(repo, gen, facts string) {
 	fmt.Fprintf(&b, "def wiring : Bool × Bool × Bool × Bool := (%v, %v, %v, %v)\n", w.LexerCollects, w.LexerSilenced, w.ParserCollects, w.ListenerWalked)
 	fmt.Fprintf(&b, "/-- pooled parser: listeners removed before use on every path, and again (deferred) after use -/\ndef wiringPool : Bool × Bool := (%v, %v)\n", w.ParserCleared, w.ParserClearedDeferred)
 	fmt.Fprintf(&b, "/-- objectz memSortingScanner.Scan: does `cursor == nil` come before the first `cursor.Current()` -/\ndef objScanNilTestFirst : Bool := %v\n", c10ObjScanNilTestFirst(repo))
+	fmt.Fprintf(&b, "/-- ast.Parse: the listener handed to zitiql.Parse is a local variable whose only definition in the function is\n    `:= NewListener()`, and NewListener returns a composite literal with fresh `&Stack{}` operand stacks and no error -/\ndef astParseListenerPerCall : Bool := %v\n", c10AstParseListenerPerCall(repo))
 	b.WriteString("def listenerCallbacks : List String := [")
 	for i, c := range callbacks {
 		if i > 0 {
@@ -625,6 +626,160 @@ func c10ObjScanNilTestFirst(repo string) bool {
 			return true
 		})
 		return nilTest != token.NoPos && (firstUse == token.NoPos || nilTest < firstUse)
+	}
+	return false
+}
+
+// c10AstParseListenerPerCall: in ast/helper.go Parse, is the listener that is handed to zitiql.Parse /
+// ParseWithDebug an identifier that the function defines exactly once, by `x := NewListener()`, never
+// assigns again and never takes from anywhere else (a pool, a package variable, a parameter); and does
+// NewListener (ast/bolt_listener.go) return `&ToBoltListener{...}` whose stacks / currentStack fields are
+// `&Stack{}` and whose err field is absent or nil?  false also when anything is not found.
+func c10AstParseListenerPerCall(repo string) bool {
+	fset := token.NewFileSet()
+	f, err := parser.ParseFile(fset, filepath.Join(repo, "ast", "helper.go"), nil, 0)
+	if err != nil {
+		return false
+	}
+	okParse := false
+	for _, d := range f.Decls {
+		fd, ok := d.(*ast.FuncDecl)
+		if !ok || fd.Body == nil || fd.Recv != nil || fd.Name.Name != "Parse" {
+			continue
+		}
+		// the identifier passed as listener
+		name := ""
+		calls := 0
+		ast.Inspect(fd.Body, func(n ast.Node) bool {
+			ce, ok := n.(*ast.CallExpr)
+			if !ok {
+				return true
+			}
+			se, ok := ce.Fun.(*ast.SelectorExpr)
+			if !ok {
+				return true
+			}
+			pkg, ok := se.X.(*ast.Ident)
+			if !ok || pkg.Name != "zitiql" || (se.Sel.Name != "Parse" && se.Sel.Name != "ParseWithDebug") || len(ce.Args) < 2 {
+				return true
+			}
+			calls++
+			if id, ok := ce.Args[1].(*ast.Ident); ok {
+				if name == "" || name == id.Name {
+					name = id.Name
+				} else {
+					name = "?"
+				}
+			} else {
+				name = "?"
+			}
+			return true
+		})
+		if calls == 0 || name == "" || name == "?" {
+			return false
+		}
+		for _, p := range fd.Type.Params.List {
+			for _, n := range p.Names {
+				if n.Name == name {
+					return false
+				}
+			}
+		}
+		defs, fresh := 0, 0
+		ast.Inspect(fd.Body, func(n ast.Node) bool {
+			switch st := n.(type) {
+			case *ast.AssignStmt:
+				for i, l := range st.Lhs {
+					if id, ok := l.(*ast.Ident); ok && id.Name == name {
+						defs++
+						if st.Tok == token.DEFINE && len(st.Lhs) == len(st.Rhs) {
+							if ce, ok := st.Rhs[i].(*ast.CallExpr); ok && len(ce.Args) == 0 {
+								if fn, ok := ce.Fun.(*ast.Ident); ok && fn.Name == "NewListener" {
+									fresh++
+								}
+							}
+						}
+					}
+				}
+			case *ast.ValueSpec:
+				for _, id := range st.Names {
+					if id.Name == name {
+						defs++
+					}
+				}
+			case *ast.UnaryExpr:
+				// &listener: could be re-pointed through the address
+				if id, ok := st.X.(*ast.Ident); ok && st.Op == token.AND && id.Name == name {
+					defs++
+				}
+			}
+			return true
+		})
+		okParse = defs == 1 && fresh == 1
+	}
+	if !okParse {
+		return false
+	}
+	g, err := parser.ParseFile(fset, filepath.Join(repo, "ast", "bolt_listener.go"), nil, 0)
+	if err != nil {
+		return false
+	}
+	for _, d := range g.Decls {
+		fd, ok := d.(*ast.FuncDecl)
+		if !ok || fd.Body == nil || fd.Recv != nil || fd.Name.Name != "NewListener" {
+			continue
+		}
+		if len(fd.Body.List) != 1 {
+			return false
+		}
+		rs, ok := fd.Body.List[0].(*ast.ReturnStmt)
+		if !ok || len(rs.Results) != 1 {
+			return false
+		}
+		ue, ok := rs.Results[0].(*ast.UnaryExpr)
+		if !ok || ue.Op != token.AND {
+			return false
+		}
+		cl, ok := ue.X.(*ast.CompositeLit)
+		if !ok {
+			return false
+		}
+		if id, ok := cl.Type.(*ast.Ident); !ok || id.Name != "ToBoltListener" {
+			return false
+		}
+		freshStack := func(e ast.Expr) bool {
+			u, ok := e.(*ast.UnaryExpr)
+			if !ok || u.Op != token.AND {
+				return false
+			}
+			c, ok := u.X.(*ast.CompositeLit)
+			if !ok || len(c.Elts) != 0 {
+				return false
+			}
+			id, ok := c.Type.(*ast.Ident)
+			return ok && id.Name == "Stack"
+		}
+		stacks, cur, errOk := false, false, true
+		for _, el := range cl.Elts {
+			kv, ok := el.(*ast.KeyValueExpr)
+			if !ok {
+				return false
+			}
+			k, ok := kv.Key.(*ast.Ident)
+			if !ok {
+				return false
+			}
+			switch k.Name {
+			case "stacks":
+				stacks = freshStack(kv.Value)
+			case "currentStack":
+				cur = freshStack(kv.Value)
+			case "err":
+				id, ok := kv.Value.(*ast.Ident)
+				errOk = ok && id.Name == "nil"
+			}
+		}
+		return stacks && cur && errOk
 	}
 	return false
 }
